@@ -486,7 +486,26 @@ func c07SlotBounds(r *core.Report) {
 				default:
 					continue
 				}
-				if core.Mentions(info, fact.Expr, bo) && core.Mentions(info, fact.Expr, tx) && strings.Contains(core.ExprStr(fact.Expr), "Slot") && g.FactFresh(fact, an) {
+				mTx, slotText := core.Mentions(info, fact.Expr, tx), strings.Contains(core.ExprStr(fact.Expr), "Slot")
+				// the slot may have been copied into a local first: `switch txSlot := tx.Slot; { case txSlot < int(until):`
+				ast.Inspect(fact.Expr, func(m ast.Node) bool {
+					id, isId := m.(*ast.Ident)
+					if !isId {
+						return true
+					}
+					v, isVar := info.Uses[id].(*types.Var)
+					if !isVar || v.IsField() || isParamOf(f, v) || types.Object(v) == tx {
+						return true
+					}
+					if d := singleDef(f, v); d != nil && core.Mentions(info, d, tx) {
+						if dn := g.NodeOf(d.Pos()); dn != nil && g.Dominates(dn, an) && !reassignedBetween(g, info, dn, an, tx) {
+							mTx = true
+							slotText = slotText || strings.Contains(core.ExprStr(d), "Slot")
+						}
+					}
+					return true
+				})
+				if core.Mentions(info, fact.Expr, bo) && mTx && slotText && g.FactFresh(fact, an) {
 					ok = true
 				}
 			}
@@ -977,6 +996,34 @@ func c07LimitCountsWholeResult(r *core.Report) {
 						continue // `limit <= 0` and the like
 					}
 					isLimit = true
+					// a snapshot of the size taken for this very test: `if n := res.Count(); limit > 0 && n >= limit {` -
+					// a local with a single definition that is re-evaluated between any append and the test
+					if qo, isVar := core.ObjOf(info, core.Unparen(q)).(*types.Var); isVar && !qo.IsField() && !isParamOf(f, qo) {
+						if def := singleDef(f, qo); def != nil {
+							if gd := g.NodeOf(def.Pos()); gd != nil && g.Dominates(gd, d) {
+								fresh := true
+								isApp := func(x *core.GNode) bool {
+									for _, a2 := range apps {
+										if a2 == x {
+											return true
+										}
+									}
+									return false
+								}
+								if g.PathAvoiding(gd, isApp, func(x *core.GNode) bool { return x == d }) != nil {
+									fresh = false
+								}
+								for _, a2 := range apps {
+									if g.PathAvoiding(a2, func(x *core.GNode) bool { return x == d }, func(x *core.GNode) bool { return x == gd }) != nil {
+										fresh = false
+									}
+								}
+								if fresh {
+									q = def
+								}
+							}
+						}
+					}
 					if ok, w := sizeOfWhole(q); ok || runningCount(q) {
 						isWhole = true
 					} else {
